@@ -312,6 +312,8 @@ def _sites_of(ctx, qual: str):
     S = ctx.summaries
     out = []
     for fi in ctx.P.all_funcs():
+        if ctx.absorbed(fi):
+            continue
         for (n, c, targets, ext) in S.calls_of(fi):
             if isinstance(c, ast.Call) and any(t.qualname == qual for t in targets):
                 out.append((fi, n, c))
@@ -378,6 +380,8 @@ def p2(ctx):
     mods = ("xandikos.store.git", "xandikos.store.vdir", "xandikos.web")
     nsites = 0
     for fi in ctx.P.all_funcs():
+        if ctx.absorbed(fi):
+            continue
         if fi.module.name not in mods:
             continue
         cfg = ctx.cfg(fi)
@@ -451,6 +455,8 @@ def p3(ctx):
             "xandikos.timezones", "xandikos.xmpp", "xandikos.apache", "xandikos.server_info", "xandikos.__main__")
     n_sites = 0
     for fi in ctx.P.all_funcs():
+        if ctx.absorbed(fi):
+            continue
         if fi.module.name not in mods:
             continue
         cfg = ctx.cfg(fi)
@@ -484,6 +490,8 @@ def p4(ctx):
     n = 0
     for mname in ("xandikos.store.git", "xandikos.store.vdir", "xandikos.store", "xandikos.web"):
         for fi in ctx.P.funcs_in_module(mname):
+            if ctx.absorbed(fi):
+                continue
             for c in walk_local(fi.node):
                 if not isinstance(c, ast.Call):
                     continue
